@@ -139,3 +139,104 @@ package actions
 //@       (forall d Id :: old(open(d)) && old(inlist(d, a.params.IDs)) ==> wake_on_commit(old(deliveries.subscription_id(d))))
 //@   ensures [C09] no_swallowed_failure: dbfailed() && !old(dbfailed()) ==> err != nil
 //@   modifies T:deliveries:attempt_at, S:dbfailed, S:wake_on_commit, E:uuid.UUID:, F:actions.DelayDeliveries:actionBase.results, F:actions.delayDeliveriesResults:*, F:actions.actionTimer:*
+
+// ---- C15: every maintenance job removes only rows of its "dead" set and leaves all other rows alone.
+// (Rows are never created; a removed delivery nulls the ordering link of its successors.)
+
+//@ func (*PruneCompletedDeliveries).Execute(pcd, ctx, tx) (err)
+//@   property C15
+//@   uses tables notifyspec
+//@   requires pcd != nil && tx != nil && pcd.params.MinAge >= 0
+//@   ensures only_dead: exists now clock :: forall d Id :: old(deliveries.exists(d)) && !deliveries.exists(d) ==>
+//@             !old(deliveries.completed_at$null(d)) && old(deliveries.completed_at(d)) <= now - pcd.params.MinAge
+//@   ensures no_outstanding_removed: [C01] forall d Id :: old(open(d)) ==> open(d)
+//@   ensures survivors: forall d Id :: (!old(deliveries.exists(d)) ==> !deliveries.exists(d)) && (deliveries.exists(d) ==> delivery_kept(d))
+//@   ensures no_swallowed_failure: [C09] dbfailed() && !old(dbfailed()) ==> err != nil
+//@   modifies T:deliveries:$live, T:deliveries:not_before_id$null, S:dbfailed, S:wake_on_commit, F:actions.PruneCompletedDeliveries:*, F:actions.PruneCommonResults:*, F:actions.actionTimer:*
+
+//@ func (*PruneExpiredDeliveries).Execute(a, ctx, tx) (err)
+//@   property C15
+//@   uses tables notifyspec
+//@   requires a != nil && tx != nil
+//@   ensures only_dead: exists now clock :: forall d Id :: old(deliveries.exists(d)) && !deliveries.exists(d) ==> old(deliveries.expires_at(d)) < now
+//@   ensures survivors: forall d Id :: (!old(deliveries.exists(d)) ==> !deliveries.exists(d)) && (deliveries.exists(d) ==> delivery_kept(d))
+//@   ensures wakes_ordered: [C10] err == nil ==> (forall d Id :: old(deliveries.exists(d)) && !deliveries.exists(d) &&
+//@             subscriptions.exists(old(deliveries.subscription_id(d))) && subscriptions.ordered_delivery(old(deliveries.subscription_id(d))) ==> wake_on_commit(old(deliveries.subscription_id(d))))
+//@   ensures no_swallowed_failure: [C09] dbfailed() && !old(dbfailed()) ==> err != nil
+//@   modifies T:deliveries:$live, T:deliveries:not_before_id$null, S:dbfailed, S:wake_on_commit, F:actions.PruneExpiredDeliveries:*, F:actions.PruneCommonResults:*, F:actions.actionTimer:*
+
+// the commit hook of PruneExpiredDeliveries wakes every ordered subscription that lost a delivery
+//@ func (*PruneExpiredDeliveries).Execute$1$1(ctx, tx) (err)
+//@   inline
+//@   loop 1
+//@     invariant forall k int :: {orderedSubs[k]} 0 <= k && k <= idx ==> wake_requested(orderedSubs[k].ID)
+
+//@ func (*PruneDeletedSubscriptionDeliveries).Execute(a, ctx, tx) (err)
+//@   property C15
+//@   uses tables notifyspec
+//@   requires a != nil && tx != nil && a.params.MinAge >= 0
+//@   ensures only_dead: exists now clock :: forall d Id :: old(deliveries.exists(d)) && !deliveries.exists(d) ==>
+//@             subscriptions.exists(old(deliveries.subscription_id(d))) && !subscriptions.deleted_at$null(old(deliveries.subscription_id(d))) &&
+//@             subscriptions.deleted_at(old(deliveries.subscription_id(d))) <= now - a.params.MinAge
+//@   ensures survivors: forall d Id :: (!old(deliveries.exists(d)) ==> !deliveries.exists(d)) && (deliveries.exists(d) ==> delivery_kept(d))
+//@   ensures no_swallowed_failure: [C09] dbfailed() && !old(dbfailed()) ==> err != nil
+//@   modifies T:deliveries:$live, T:deliveries:not_before_id$null, S:dbfailed, S:wake_on_commit, F:actions.PruneDeletedSubscriptionDeliveries:*, F:actions.PruneCommonResults:*, F:actions.actionTimer:*
+
+//@ func (*PruneCompletedMessages).Execute(a, ctx, tx) (err)
+//@   property C15
+//@   uses tables notifyspec
+//@   requires a != nil && tx != nil && a.params.MinAge >= 0
+//@   ensures only_dead: exists now clock :: forall m Id :: old(messages.exists(m)) && !messages.exists(m) ==>
+//@             old(messages.published_at(m)) <= now - a.params.MinAge &&
+//@             (forall d Id :: deliveries.exists(d) ==> deliveries.message_id(d) != m)
+//@   ensures never_created: forall m Id :: !old(messages.exists(m)) ==> !messages.exists(m)
+//@   ensures no_swallowed_failure: [C09] dbfailed() && !old(dbfailed()) ==> err != nil
+//@   modifies T:messages:$live, S:dbfailed, S:wake_on_commit, F:actions.PruneCompletedMessages:*, F:actions.PruneCommonResults:*, F:actions.actionTimer:*
+
+//@ func (*PruneDeletedSubscriptions).Execute(a, ctx, tx) (err)
+//@   property C15
+//@   uses tables notifyspec
+//@   requires a != nil && tx != nil && a.params.MinAge >= 0
+//@   ensures only_dead: exists now clock :: forall s Id :: old(subscriptions.exists(s)) && !subscriptions.exists(s) ==>
+//@             !old(subscriptions.deleted_at$null(s)) && old(subscriptions.deleted_at(s)) <= now - a.params.MinAge &&
+//@             (forall d Id :: deliveries.exists(d) ==> deliveries.subscription_id(d) != s)
+//@   ensures never_created: forall s Id :: !old(subscriptions.exists(s)) ==> !subscriptions.exists(s)
+//@   ensures no_swallowed_failure: [C09] dbfailed() && !old(dbfailed()) ==> err != nil
+//@   modifies T:subscriptions:$live, S:dbfailed, S:wake_on_commit, E:uuid.UUID:, F:actions.PruneDeletedSubscriptions:*, F:actions.PruneCommonResults:*, F:actions.actionTimer:*
+//@   loop 1
+//@     invariant forall k int :: {ids[k]} 0 <= k && k <= idx ==> ids[k] == subs[k].ID
+//@     invariant len(ids) == len(subs)
+
+//@ func (*PruneDeletedTopics).Execute(a, ctx, tx) (err)
+//@   property C15
+//@   uses tables notifyspec
+//@   requires a != nil && tx != nil && a.params.MinAge >= 0
+//@   ensures only_dead: exists now clock :: forall t Id :: old(topics.exists(t)) && !topics.exists(t) ==>
+//@             !old(topics.deleted_at$null(t)) && old(topics.deleted_at(t)) <= now - a.params.MinAge &&
+//@             (forall s Id :: subscriptions.exists(s) ==> subscriptions.topic_id(s) != t)
+//@   ensures never_created: forall t Id :: !old(topics.exists(t)) ==> !topics.exists(t)
+//@   ensures no_swallowed_failure: [C09] dbfailed() && !old(dbfailed()) ==> err != nil
+//@   modifies T:topics:$live, T:subscriptions:dead_letter_topic_id$null, S:dbfailed, S:wake_on_commit, E:uuid.UUID:, F:actions.PruneDeletedTopics:*, F:actions.PruneCommonResults:*, F:actions.actionTimer:*
+//@   loop 1
+//@     invariant forall k int :: {ids[k]} 0 <= k && k <= idx ==> ids[k] == topics[k].ID
+//@     invariant len(ids) == len(topics)
+
+// ---- C14: the expiry sweep soft-deletes only live subscriptions whose expiry instant has passed.
+//@ func (*DeleteExpiredSubscriptions).Execute(a, ctx, tx) (err)
+//@   property C14
+//@   uses tables notifyspec
+//@   requires a != nil && tx != nil
+//@   ensures only_lapsed: exists now clock :: forall s Id :: old(subscriptions.exists(s)) && subscriptions.deleted_at$null(s) != old(subscriptions.deleted_at$null(s)) ==>
+//@             old(subscriptions.deleted_at$null(s)) && old(subscriptions.expires_at(s)) < now && !subscriptions.deleted_at$null(s) && subscriptions.live$null(s)
+//@   ensures rows_kept: forall s Id :: subscriptions.exists(s) == old(subscriptions.exists(s)) && subscriptions.expires_at(s) == old(subscriptions.expires_at(s)) &&
+//@             subscriptions.name(s) == old(subscriptions.name(s)) && subscriptions.topic_id(s) == old(subscriptions.topic_id(s))
+//@   ensures untouched: forall s Id :: subscriptions.deleted_at$null(s) == old(subscriptions.deleted_at$null(s)) ==>
+//@             subscriptions.live$null(s) == old(subscriptions.live$null(s)) || !old(subscriptions.deleted_at$null(s))
+//@   ensures wakes: [C10] err == nil ==> (forall s Id :: subscriptions.deleted_at$null(s) != old(subscriptions.deleted_at$null(s)) ==> wake_on_commit(s))
+//@   ensures no_swallowed_failure: [C09] dbfailed() && !old(dbfailed()) ==> err != nil
+//@   modifies T:subscriptions:deleted_at, T:subscriptions:deleted_at$null, T:subscriptions:live$null, S:dbfailed, S:wake_on_commit, E:uuid.UUID:, F:actions.DeleteExpiredSubscriptions:*, F:actions.PruneCommonResults:*, F:actions.actionTimer:*
+//@   loop 1
+//@     invariant forall k int :: {ids[k]} 0 <= k && k <= idx ==> ids[k] == subs[k].ID
+//@     invariant len(ids) == len(subs)
+//@   loop 2
+//@     invariant forall k int :: {subs[k]} 0 <= k && k <= idx ==> wake_on_commit(subs[k].ID)
